@@ -27,7 +27,7 @@ type profile struct {
 var baseWeights = map[string]int{
 	"fund": 14, "swap": 14, "swap-replay": 8, "swap-forged": 4, "swap-badout": 4, "melt": 8, "melt-replay": 4,
 	"melt-internal": 2, "poll": 8, "check": 6, "restore": 3, "restart": 2, "rotate": 2, "balance": 2, "info": 1, "reconfigure": 1,
-	"watcher": 2, "mint-again": 3, "mint-early": 2, "mint-bad": 3, "quote-bad": 2,
+	"watcher": 2, "admin": 2, "mint-again": 3, "mint-early": 2, "mint-bad": 3, "quote-bad": 2,
 }
 
 func weightsWith(over map[string]int) map[string]int {
@@ -249,7 +249,7 @@ func (h *Hist) actSwapBadOut() {
 		sum += s.amount
 	}
 	outs := h.honestSwapOutputs(ins)
-	switch h.rng.Intn(10) {
+	switch h.rng.Intn(11) {
 	case 0: // outputs exceed inputs
 		outs = h.freshOutputs(cashu.AmountSplit(sum + 1))
 	case 1: // overflowing amounts
@@ -292,6 +292,10 @@ func (h *Hist) actSwapBadOut() {
 			k = []uint64{1, f, f + 1}[h.rng.Intn(3)]
 		}
 		outs = h.freshOutputs(belowTwo64(k))
+	case 10: // outputs worth exactly the inputs: the input fee is not paid
+		if h.feesFor(ins) > 0 {
+			outs = h.freshOutputs(cashu.AmountSplit(sum))
+		}
 	case 9: // an output spelled a second time in upper-case hex: another string for the same point (the inputs pay for both)
 		if len(outs) > 0 {
 			small := outs[0]
@@ -734,6 +738,43 @@ func (h *Hist) actInfoCycle() {
 	h.OpMintQuote(mode{}, 1, false, false, true)
 }
 
+// actAdmin: one request to the admin RPC: the balance views (all keysets, one known or unknown keyset), the keyset list,
+// a rotation with a well-formed fee or with text that is no fee or does not fit, a method that does not exist
+func (h *Hist) actAdmin(fees []uint) {
+	ks := func() *int64 {
+		switch h.rng.Intn(3) {
+		case 0:
+			return nil
+		case 1:
+			v := int64(-7)
+			return &v
+		}
+		v := int64(h.rng.Intn(len(h.tm.Order)))
+		return &v
+	}
+	switch h.rng.Intn(8) {
+	case 0:
+		h.OpAdmin(adminReq{method: "issued_ecash", ks: ks()})
+	case 1:
+		h.OpAdmin(adminReq{method: "redeemed_ecash", ks: ks()})
+	case 2:
+		h.OpAdmin(adminReq{method: "total_balance"})
+	case 3:
+		h.OpAdmin(adminReq{method: "list_keysets"})
+	case 4:
+		f := fmt.Sprint(fees[h.rng.Intn(len(fees))])
+		h.OpAdmin(adminReq{method: "rotate_keyset", fee: &f})
+	case 5:
+		f := []string{"-1", "abc", "", "1.5", "1e3", "007", "+7", "9223372036854775807", "9223372036854775808", "18446744073709551615", "18446744073709551616", "-9223372036854775809"}[h.rng.Intn(12)]
+		h.OpAdmin(adminReq{method: "rotate_keyset", fee: &f})
+	case 6:
+		h.OpAdmin(adminReq{method: "rotate_keyset"})
+	case 7:
+		h.OpAdmin(adminReq{method: "shutdown"})
+	}
+	h.nontrivial = true
+}
+
 func (h *Hist) act(name string, fees []uint) {
 	switch name {
 	case "overshoot":
@@ -793,14 +834,9 @@ func (h *Hist) act(name string, fees []uint) {
 		}
 		h.Reconfigure(c)
 	case "rotate":
-		switch h.rng.Intn(6) {
-		case 0: // through the admin RPC, with a well-formed fee
-			h.OpRotateAdmin(fmt.Sprint(fees[h.rng.Intn(len(fees))]))
-		case 1: // through the admin RPC, with text that is no fee or does not fit the keysets table
-			h.OpRotateAdmin([]string{"-1", "abc", "", "1.5", "1e3", "9223372036854775807", "9223372036854775808", "18446744073709551615", "18446744073709551616"}[h.rng.Intn(9)])
-		default:
-			h.OpRotate(mode{}, fees[h.rng.Intn(len(fees))])
-		}
+		h.OpRotate(mode{}, fees[h.rng.Intn(len(fees))])
+	case "admin":
+		h.actAdmin(fees)
 	case "balance":
 		h.OpBalance(mode{})
 	case "info":
@@ -878,7 +914,7 @@ func init() {
 		rule: "random histories with semantically invalid requests at every state (bad amounts, duplicate/already signed/foreign-keyset outputs, forged/oversized/unknown-keyset inputs, wrong units, undecodable invoices, unknown quotes, limits), each followed by corrected requests; rejection causes are compared; non-trivial = at least one invalid request"}))
 	register("c09-hist", "C09", histStream(profile{prop: "C09", histQ: 100, histT: 1500, minOps: 8, maxOps: 26, proj: 1,
 		fees: []uint{0, 100, 250, 1000, 2500}, mppProb: 0,
-		w: weightsWith(map[string]int{"restart": 14, "rotate": 14, "swap": 16, "fund": 14, "melt": 8, "swap-forged": 6, "swap-badout": 6}),
+		w: weightsWith(map[string]int{"restart": 14, "rotate": 12, "admin": 10, "swap": 16, "fund": 14, "melt": 8, "swap-forged": 6, "swap-badout": 6}),
 		rule: "histories of restarts with and without rotation and runtime rotations with varying input_fee_ppk, interleaved with mint/swap/melt traffic on old and new keysets; non-trivial = at least one rotation"}))
 	register("c15-hist", "C15", histStream(profile{prop: "C15", histQ: 150, histT: 2500, minOps: 8, maxOps: 30, proj: 1,
 		fees: []uint{0, 100}, mppProb: 10,
@@ -886,6 +922,6 @@ func init() {
 		rule: "histories of mint/swap/melt incl. failed and pending melts, rotations, restarts, with state checks and restore queries mixing known, unknown and repeated entries in random order; non-trivial = a query containing a spent or pending or signed entry"}))
 	register("c16-hist", "C16", histStream(profile{prop: "C16", histQ: 150, histT: 2500, minOps: 8, maxOps: 30, proj: 1,
 		fees: []uint{0, 100}, mppProb: 10, limits: true,
-		w: weightsWith(map[string]int{"balance": 16, "info": 12, "quote-bad": 10, "fund": 20, "melt": 10, "swap": 10, "overshoot": 8, "info-cycle": 10, "reconfigure": 6}),
+		w: weightsWith(map[string]int{"balance": 16, "info": 12, "quote-bad": 10, "fund": 20, "melt": 10, "swap": 10, "overshoot": 8, "info-cycle": 10, "reconfigure": 6, "admin": 14}),
 		rule: "histories under limit configurations (unset / small / at the boundary) with balance and info queries and quote requests near 2^63 and 2^64; non-trivial = a limit was configured"}))
 }
